@@ -332,7 +332,42 @@ def rule_thread_and_contain(chk, qa, itemvars):
               and (common.is_self_attr(c.func.value, tattr) or (tlocal is not None and isinstance(c.func.value, ast.Name) and c.func.value.id == tlocal))]
     regs = [n for n in scfg.live for c, m in calls_in_node(n) if isinstance(c.func, ast.Name) and c.func.id in ("addDestination", "add_destination", "add_destinations")
             and c.args and isinstance(c.args[0], ast.Name) and c.args[0].id == "self"]
-    okt = okt and len(starts) == 1 and bool(regs) and scfg.precedes(starts, regs)[0] and scfg.count_range(scfg.entry, [scfg.exit], lambda x: 1 if x in starts else 0) == (1, 1)
+    # an early return for a writer that is ALREADY RUNNING is not a path that needs a thread: recognised are the flag twisted's Service keeps
+    # (set by Service.startService, cleared by Service.stopService, both of which this class must call) and an attribute of the writer that
+    # stopService resets; a guard on something that is never reset makes every later start a no-op
+    running_edges = set()
+    stop_ = _tw(chk, "stopService")
+    calls_base = lambda m_, nm: any(isinstance(x, ast.Call) and unparse(x.func) == "Service.%s" % nm for x in iter_own_nodes(m_.node))
+    for t in scfg.live:
+        if t.kind != "test":
+            continue
+        for lab in ("true", "false"):
+            facts = X.atomic_facts(t.exprs[0], lab)
+            if len(facts) != 1:
+                continue
+            e_, truth = facts[0]
+            exits_ = [x for x in scfg.reach([s_ for s_, l_ in t.succ if l_ == lab]) if x.kind == "return"]
+            if not exits_ or any(x in starts for x in scfg.reach([s_ for s_, l_ in t.succ if l_ == lab])):
+                continue
+            if common.is_self_attr(e_, "running") and truth and calls_base(st, "startService") and calls_base(stop_, "stopService"):
+                running_edges.add((t, lab))
+            else:
+                attr_ = None
+                if isinstance(e_, ast.Compare) and len(e_.ops) == 1 and common.is_self_attr(e_.left) and isinstance(e_.comparators[0], ast.Constant) and e_.comparators[0].value is None:
+                    if (isinstance(e_.ops[0], ast.Is) and not truth) or (isinstance(e_.ops[0], ast.IsNot) and truth):
+                        attr_ = e_.left.attr
+                if attr_ is not None:
+                    resets = [x for x in iter_own_nodes(stop_.node) if isinstance(x, ast.Assign) and any(common.is_self_attr(t_, attr_) for t_ in x.targets)
+                              and isinstance(x.value, ast.Constant) and x.value.value is None]
+                    if resets:
+                        running_edges.add((t, lab))
+                    else:
+                        chk.bad("C19.thread", "ThreadedWriter.startService:restartable", chk.where(st, t.lineno),
+                                "startService returns early when `%s`, but stopService never sets self.%s back to None: after the first stop every later startService does nothing -- no reader "
+                                "thread, the writer is not registered -- so the messages of that run are never written" % (unparse(t.exprs[0])[:50], attr_))
+                        running_edges.add((t, lab))
+    okt = okt and len(starts) == 1 and bool(regs) and scfg.precedes(starts, regs)[0] \
+        and scfg.count_range(scfg.entry, [scfg.exit], lambda x: 1 if x in starts else 0, avoid_edges=running_edges) == (1, 1)
     # nobody else creates or starts a reader thread
     for m_ in set(st.cls.methods.values()):
         if m_ is st:
